@@ -3,10 +3,12 @@
 (* of Stop in the request stream x handler duration pattern x late requests.   *)
 EXTENDS Integers, Sequences, FiniteSets, TLC, SequencesExt, Json
 CONSTANTS MaxWorkers, MaxQLen, MaxBurst
-Holds == {"fast", "hold-until-stop", "slow"}
+\* "beyond-watermark": the server is built with a 10 ms high watermark (the threshold of its "request waited too long" warning)
+\* and every handler that is running when Stop is called stays in the handler for several watermarks
+Holds == {"fast", "hold-until-stop", "slow", "beyond-watermark"}
 Cases == {[workers |-> w, qlen |-> q, burst |-> b, stop_after |-> s, hold |-> h, late |-> 2] :
             w \in 1..MaxWorkers, q \in 0..MaxQLen, b \in 0..MaxBurst, s \in 0..MaxBurst, h \in Holds}
-Valid(c) == c.stop_after <= c.burst
+Valid(c) == c.stop_after <= c.burst /\ (c.hold = "beyond-watermark" => c.stop_after >= 1)
 ASSUME JsonSerialize("natssrv_cases.json", SetToSeq({c \in Cases : Valid(c)}))
 ASSUME PrintT("CASES " \o ToString(Cardinality({c \in Cases : Valid(c)})))
 VARIABLE x
